@@ -29,7 +29,7 @@ const (
 )
 
 // hostile integer constants, to be written over counts, lengths and indices
-var hostileInts = []int32{0, -1, 1, 2, 15, 16, 17, 255, 256, 65535, 65536, 1 << 20, 1 << 24, 1<<31 - 1, -(1 << 31), -2, 1000000}
+var hostileInts = []int32{0, -1, 1, 2, 15, 16, 17, 255, 256, 65535, 65536, 1 << 20, 1 << 24, 1 << 28, 1 << 29, 1 << 30, 1<<31 - 1, -(1 << 31), -2, 1000000}
 
 func encInt(v int32) []byte {
 	switch {
@@ -92,6 +92,7 @@ func c14Fixed() [][]byte {
 		"430b6578616d706c652e43617292" + "05636f6c6f72056d6f64656c" + "4f9003726564" + "08636f727665747465", // C example.Car 2 color model O x90 red corvette
 		"48910366656561a0036669655a", // H 1 fee ... Z (truncated variant)
 		"4d13636f6d2e63617563686f2e746573742e43617205636f6c6f720a617175616d6172696e655a",
+		"584910000000", "584920000000", "584940000000", "56045b696e744940000000", "56055b6c6f6e674920000000", "5606" + "5b696e743634" + "4920000000", "56085b737472696e674908000000", // declared lengths whose product with an element size wraps 32 bits
 		"4300905a", "4f90", "5190", "51ff", "60", "6f", "4fc8ff", "7fffffffff", "58497fffffff", "56004990", "5500", "4d00", "4d90", "4300" + "497fffffff",
 		"71065b696e74333279" + "5191",                     // typed int list whose element is a list containing itself
 		"71055b74726565795191",                            // "[tree" (type Tree []Tree) holding a list that contains itself
